@@ -71,7 +71,14 @@ def allow_decision(e3, nets_len):
     e3.absorb(eng)
     done = [l for l in leaves if l.status == "done"]
     other = z3.Or(*[l.taken() for l in leaves if l.status != "done"] or [z3.BoolVal(False)])
-    allowed = z3.Or(*[z3.And(l.taken(), eng.as_bool(l.ret)) for l in done] or [z3.BoolVal(False)])
+    def decision(r):
+        # bool, or Result<bool, _> / Option<bool> (an error counts as "not allowed": the connection is not served)
+        if isinstance(r, Enum) and r.name in ("Result", "Option"):
+            k = 0 if r.name == "Result" else 1
+            inner = r.v.get(k, Agg()).f.get(0)
+            return z3.And(eng.discr_is(r.discr, k), eng.as_bool(inner)) if inner is not None else z3.BoolVal(False)
+        return eng.as_bool(r)
+    allowed = z3.Or(*[z3.And(l.taken(), decision(l.ret)) for l in done] or [z3.BoolVal(False)])
     inside = z3.Or(*[MN.contains_ip(MN.net(a, p), ipv) for a, p in zip(addrs, plens)]) if L else z3.BoolVal(False)
     tag = "none" if not configured else f"n{L}"
     bounds = (f"new_http_listener (the exporter it builds) followed by check_tcp_allowed with its closures; allowlist " + ("not configured" if not configured else f"of {L} IPv4 network(s), any address and prefix length 0..32 (nested, overlapping, duplicated, unsorted, with host bits)")
@@ -122,14 +129,11 @@ def replay_native(ob, scen, pname, inputs):
         ob.detail += " — counterexample did NOT reproduce natively: treated as an encoder/model problem, not reported as a violation"
 
 
-def response_table(e3):
-    """handle_http_request as the generated state machine: what is served for each (is_allowed, path) decision"""
-    P = _e3.program(["metrics-exporter-prometheus"])
-    is_allowed = z3.Bool("is_allowed")
-    is_health = z3.Bool("path_is_health")
-    ready_first = z3.Bool("render_task_ready_at_first_poll")
-    # body / status tags
-    B_OK, B_RENDER, B_EMPTY, B_OTHER = 1, 2, 3, 4
+B_OK, B_RENDER, B_EMPTY, B_OTHER = 1, 2, 3, 4
+
+
+def handler_models(is_health, ready_first):
+    """models of the hyper / tokio callees of handle_http_request's state machine (shared by the decision table and the accept loop)"""
 
     def m_eq(eng, ctx, f, path, args, dty):
         lit = args[1]
@@ -184,6 +188,16 @@ def response_table(e3):
          r"as Into>::into$": m_into_body, r"^Response::new$": m_resp_new, r"Response::headers_mut$|HeaderValue::from_static$|HeaderMap::append$": lambda *a: Opaque("hdr"),
          r"^Response::builder$": lambda *a: Native("builder", 200), r"Builder::status$": m_status, r"Full as Default>::default$": lambda *a: Native("body", B_EMPTY),
          r"Builder::body$": m_builder_body}
+    return m
+
+
+def response_table(e3):
+    """handle_http_request as the generated state machine: what is served for each (is_allowed, path) decision"""
+    P = _e3.program(["metrics-exporter-prometheus"])
+    is_allowed = z3.Bool("is_allowed")
+    is_health = z3.Bool("path_is_health")
+    ready_first = z3.Bool("render_task_ready_at_first_poll")
+    m = handler_models(is_health, ready_first)
     m.update(models.BASE)
     eng = sym.Engine(P, models=m, opaque=TRACING)
     eng.merging = False
@@ -243,6 +257,189 @@ def response_table(e3):
              dict(name="c18_response:other_paths_return_the_current_rendering", desc="an allowed GET on another path does not return 200 with the rendering produced by PrometheusHandle::render for this request", bounds=bounds,
                   cons=[is_allowed, z3.Not(is_health), cond(lambda rp, sp, rd: rp is not None and (True if (st(rp) != 200 or bd(rp) != B_RENDER) else z3.Not(rd)))], expect_unsat=True, on_model=on_model)]
     check.discharge_many(e3.res, specs, 60)
+
+
+def co_state(clo):
+    """a freshly created coroutine (MIR aggregate `{coroutine@..} { upvars }`) as the state value the generated poll function works on"""
+    if not isinstance(clo, sym.Closure):
+        raise sym.Unsupported(f"coroutine expected, got {clo}")
+    return Enum(0, {"up": Agg({i: v for i, v in enumerate(clo.caps.values())})}, None)
+
+
+def serve_loop(e3, nets_len, K=2):
+    """The accept loop as the compiler generated it: serve_tcp's state machine is polled while accept() yields K connections (each
+    Ok(stream) or Err), then Pending. For every accepted connection the task handed to tokio::spawn is taken apart: its service
+    closure is called with a request and the handler's state machine is run to its response. Oracle: one response per accepted
+    connection, 200 + rendering for a peer inside the allowlist (or when none is configured), 403 + empty body otherwise, and the
+    loop is still accepting afterwards whatever accept() and peer_addr() returned."""
+    from mirsmt import models_net as MN, models_str as MS
+    P = _e3.program(["metrics-exporter-prometheus"])
+    configured = nets_len is not None
+    L = nets_len or 0
+    addrs = [z3.BitVec(f"net{i}_addr", 32) for i in range(L)]
+    plens = [z3.BitVec(f"net{i}_prefix_len", 8) for i in range(L)]
+    acc_ok = [z3.Bool(f"accept{k}_ok") for k in range(K)]
+    peer_ok = [z3.Bool(f"peer_addr{k}_ok") for k in range(K)]
+    ips = [z3.BitVec(f"peer{k}_ip", 32) for k in range(K)]
+    is_health = z3.Bool("path_is_health")
+    rng = [z3.ULE(p, z3.BitVecVal(32, 8)) for p in plens] + [z3.Extract(31, 24, x) == z3.BitVecVal(127, 8) for x in ips]
+    naccept = [0]
+
+    def m_accept_poll(eng, ctx, f, path, args, dty):
+        k = ctx.statics.get("accepts", 0)
+        if k >= K:
+            return Enum(1, {}, "Poll")
+        ctx.statics["accepts"] = k + 1
+        good = Enum(0, {0: Agg({0: Enum(0, {0: Agg({0: Agg({0: Native("stream", k), 1: Opaque("peer sockaddr")})})}, "Result")})}, "Poll")
+        bad = Enum(0, {0: Agg({0: Enum(1, {1: Agg({0: Opaque("io::Error")})}, "Result")})}, "Poll")
+
+        def ok_(c):
+            c.observe("accepted", k=k)
+            return good
+        return Fork([(acc_ok[k], ok_), (z3.Not(acc_ok[k]), bad)])
+
+    def m_peer_addr(eng, ctx, f, path, args, dty):
+        st = args[0]
+        while isinstance(st, Ptr):
+            st = eng.load_ptr(ctx, st)
+        if not (isinstance(st, Native) and st.kind == "stream"):
+            raise sym.Unsupported(f"peer_addr of {st}")
+        k = st.data
+        return Fork([(peer_ok[k], Enum(0, {0: Agg({0: Native("sockaddr", k)})}, "Result")), (z3.Not(peer_ok[k]), Enum(1, {1: Agg({0: Opaque("io::Error")})}, "Result"))])
+
+    def m_ip(eng, ctx, f, path, args, dty):
+        sa = args[0]
+        while isinstance(sa, Ptr):
+            sa = eng.load_ptr(ctx, sa)
+        return MN.ip(ips[sa.data])
+
+    def m_map_or_else(eng, ctx, f, path, args, dty):
+        e = args[0]
+        if not (isinstance(e, Enum) and isinstance(e.discr, int)):
+            raise sym.Unsupported("map_or_else on a symbolic Result")
+        return TailCall(args[2], [e.v[0].f[0]]) if e.discr == 0 else TailCall(args[1], [e.v[1].f[0]])
+    hb = P.bodies[[k for k in P.bodies if k.endswith("handle_http_request::{closure#0}")][0]]
+
+    def m_spawn_task(eng, ctx, f, path, args, dty):
+        """tokio::spawn(task): the task's service closure is called with a request and the resulting handler is run to its response"""
+        task = args[0]
+        if not isinstance(task, sym.Closure):
+            raise sym.Unsupported(f"tokio::spawn of {task}")
+        svc = [v for v in task.caps.values() if isinstance(v, Native) and v.kind == "service"]
+        strm = [v for v in task.caps.values() if isinstance(v, Native) and v.kind == "stream"]
+        if len(svc) != 1 or len(strm) != 1:
+            raise sym.Unsupported(f"spawned task does not capture one stream and one service: {task}")
+        k = strm[0].data
+
+        def script(c):
+            fut = yield ("callv", svc[0].data, [Opaque("request")])
+            cell = yield ("effect", lambda c_: c_.statics.__setitem__(f"handler{k}", co_state(fut)) or f"handler{k}")
+            r = yield ("callv", hb, [Agg({0: Ptr(("static", f"handler{k}"))}), Opaque("cx")])
+            yield ("observe", "response", {"k": k, "resp": r})
+            return Native("joinhandle", None)
+        return sym.Script(script)
+    m = handler_models(is_health, z3.BoolVal(True))
+    m.update({r"TcpListener::accept$": lambda *a: Native("acceptfut", None), r"accept\(\)\} as Future>::poll$": m_accept_poll,
+              r"TcpStream::peer_addr$": m_peer_addr, r"Result::map_or_else$": m_map_or_else, r"SocketAddr::ip$": m_ip,
+              r"^tokio::spawn$|task::spawn$": m_spawn_task, r"service_fn$": lambda eng, ctx, f, path, args, dty: Native("service", args[0]),
+              r"^<PrometheusHandle as Clone>::clone$": lambda *a: Native("handle", None), r"JoinHandle as Drop>::drop$": models.m_unit})
+    m.update(MN.NET)
+    m.update(models.RESULT)
+    m.update(models.BASE)
+    eng = sym.Engine(P, models=m, opaque=TRACING, loop_bound=K + 2, max_paths=6000)
+    eng.merging = False
+    MN.install(eng)
+    st_b = P.find("HttpListeningExporter", "serve_tcp")
+    poll_b = P.bodies[[k for k in P.bodies if k.endswith("serve_tcp::{closure#0}")][0]]
+    ctx0 = sym.Ctx(eng, 1)
+    lst = Enum(1, {1: Agg({0: MS.lvec(tuple(MN.net(a, p) for a, p in zip(addrs, plens)))})}, "Option") if configured else Enum(0, {}, "Option")
+    new_b = P.find_fn("new_http_listener")
+    m[r"^std::net::TcpListener::bind$|^TcpListener::bind$"] = lambda *a: Enum(0, {0: Agg({0: Opaque("std listener")})}, "Result")
+    m[r"TcpListener::set_nonblocking$"] = lambda *a: Enum(0, {0: Agg({0: UNIT})}, "Result")
+    m[r"TcpListener::from_std$"] = lambda *a: Enum(0, {0: Agg({0: Opaque("tokio listener")})}, "Result")
+    m[r"^Box::pin$"] = models.m_identity
+
+    def script():
+        r = yield ("call", new_b, [Native("handle", None), Opaque("listen address"), lst])
+        if not (isinstance(r, Enum) and r.discr == 0):
+            raise sym.Unsupported(f"new_http_listener did not return Ok: {r}")
+        fut = r.v[0].f[0]
+        while isinstance(fut, Agg) and len(fut.f) == 1:
+            fut = list(fut.f.values())[0]
+        if not (isinstance(fut, sym.Closure) and fut.caps):
+            raise sym.Unsupported(f"exporter future: {fut}")
+        yield ("setstatic", "exp", fut.caps.get("exporter", list(fut.caps.values())[0]))
+        co = yield ("call", st_b, [Ptr(("static", "exp")), Opaque("listener")])
+        yield ("setstatic", "loop", co_state(co))
+        r = yield ("call", poll_b, [Agg({0: Ptr(("static", "loop"))}), Opaque("cx")])
+        return r
+    leaves = eng.run_script(1, "serve_tcp state machine", script, ctx0=ctx0)
+    e3.absorb(eng)
+    done = [l for l in leaves if l.status == "done"]
+    other = z3.Or(*[l.taken() for l in leaves if l.status != "done"] or [z3.BoolVal(False)])
+
+    def resp_of(r):
+        if not (isinstance(r, Enum) and r.discr == 0):
+            return None
+        res = r.v[0].f[0]
+        if not (isinstance(res, Enum) and res.discr == 0):
+            return None
+        rp = res.v[0].f[0]
+        return rp.data if isinstance(rp, Native) and rp.kind == "response" else None
+    stopped, wrong, missing, rendered_for_refused = [], [], [], []
+    for l in done:
+        pending = isinstance(l.ret, Enum) and ((isinstance(l.ret.discr, int) and l.ret.discr == 1))
+        if not pending:
+            stopped.append(l.taken())
+        for k in range(K):
+            inside = z3.Or(*[MN.contains_ip(MN.net(a, p), ips[k]) for a, p in zip(addrs, plens)]) if L else z3.BoolVal(False)
+            should = z3.And(peer_ok[k], inside) if configured else z3.BoolVal(True)
+            acc = [e.guard for lab, e, pl in l.obs if lab == "accepted" and pl["k"] == k]
+            resps = [(e.guard, resp_of(pl["resp"])) for lab, e, pl in l.obs if lab == "response" and pl["k"] == k]
+            accepted = z3.Or(*acc) if acc else z3.BoolVal(False)
+            answered = z3.Or(*[g for g, _ in resps]) if resps else z3.BoolVal(False)
+            missing.append(z3.And(l.taken(), accepted, z3.Not(answered)))
+            for g, rp in resps:
+                if rp is None or not (isinstance(rp[1], Native) and rp[1].kind == "body"):
+                    wrong.append(z3.And(l.taken(), g))
+                    continue
+                st, bd = rp[0], rp[1].data
+                good_serve = st == 200 and bd in (B_OK, B_RENDER)
+                good_refuse = st == 403 and bd == B_EMPTY
+                wrong.append(z3.And(l.taken(), g, z3.Or(z3.And(should, z3.BoolVal(not good_serve)), z3.And(z3.Not(should), z3.BoolVal(not good_refuse)))))
+    tag = "none" if not configured else f"n{L}"
+    nm = f"c18_loop_{tag}"
+    bounds = (f"new_http_listener, then serve_tcp's generated state machine polled once: accept() yields {K} results (each a connection or an error), then Pending; every spawned connection task is run to its first response; "
+              + ("no allowlist" if not configured else f"allowlist of {L} IPv4 network(s), any address / prefix length") + "; each peer: any 127.0.0.0/8 address, or peer_addr() fails; path /health or other")
+
+    def dotted(x):
+        return ".".join(str((x >> s) & 255) for s in (24, 16, 8, 0))
+
+    def on_model(ob, model):
+        ev = lambda t: model.eval(t, model_completion=True)
+        nets = [f"{dotted(ev(a).as_long())}/{ev(p).as_long()}" for a, p in zip(addrs, plens)]
+        conns = [{"accept_ok": z3.is_true(ev(acc_ok[k])), "peer_addr_ok": z3.is_true(ev(peer_ok[k])), "peer": dotted(ev(ips[k]).as_long())} for k in range(K)]
+        ob.sample = {"allowlist": nets if configured else None, "connections": conns, "path_is_health": z3.is_true(ev(is_health))}
+        inputs = {"configured": int(configured), "n": L, "K": K, "health": int(z3.is_true(ev(is_health)))}
+        for i, (a, p) in enumerate(zip(addrs, plens)):
+            inputs[f"addr{i}"] = ev(a).as_long()
+            inputs[f"plen{i}"] = ev(p).as_long()
+        for k in range(K):
+            inputs[f"acc{k}"] = int(conns[k]["accept_ok"])
+            inputs[f"peerok{k}"] = int(conns[k]["peer_addr_ok"])
+            inputs[f"peer{k}"] = ev(ips[k]).as_long()
+            ins = z3.Or(*[MN.contains_ip(MN.net(a, p), ips[k]) for a, p in zip(addrs, plens)]) if L else z3.BoolVal(False)
+            inputs[f"inside{k}"] = int(z3.is_true(ev(ins)))
+        replay_native(ob, "c18_loop", ob.name.split(":")[1], inputs)
+    specs = [dict(name=f"{nm}:witness", desc="the loop reaches Pending after the connections", bounds=bounds, cons=rng + [z3.Or(*[l.taken() for l in done] or [z3.BoolVal(False)])], expect_unsat=False),
+             dict(name=f"{nm}:no_panic", desc="the accept loop or a connection task panics / exceeds the bound", bounds=bounds, cons=rng + [other], expect_unsat=True, on_model=on_model),
+             dict(name=f"{nm}:later_clients_still_served", desc="the accept loop ends (the listener is dropped) because of what one connection did: later clients are never served", bounds=bounds,
+                  cons=rng + [z3.Or(*stopped) if stopped else z3.BoolVal(False)], expect_unsat=True, on_model=on_model),
+             dict(name=f"{nm}:every_accepted_connection_is_answered", desc="an accepted connection is not handed to a task that answers it", bounds=bounds,
+                  cons=rng + [z3.Or(*missing) if missing else z3.BoolVal(False)], expect_unsat=True, on_model=on_model),
+             dict(name=f"{nm}:answer_follows_the_allowlist", desc="a peer inside the allowlist (or any peer without one) does not get 200 with the rendering / OK, or a peer outside gets anything but 403 with an empty body", bounds=bounds,
+                  cons=rng + [z3.Or(*wrong) if wrong else z3.BoolVal(False)], expect_unsat=True, on_model=on_model)]
+    check.discharge_many(e3.res, specs, 120)
 
 
 def syntax_table(e3):
@@ -323,6 +520,7 @@ def syntax_table(e3):
 def run(tier, seed, t0):
     e3 = _e3.E3("C18")
     jobs = [(f"c18_allow_{'none' if n is None else 'n' + str(n)}", (lambda e, n=n: allow_decision(e, n))) for n in ([None, 1, 2, 3] if tier == "quick" else [None, 1, 2, 3, 4])]
+    jobs += [(f"c18_loop_{'none' if n is None else 'n' + str(n)}", (lambda e, n=n: serve_loop(e, n))) for n in ([None, 2] if tier == "quick" else [None, 1, 2, 3])]
     for nm, fn in jobs + [("c18_response", response_table), ("c18_syntax", syntax_table)]:
         try:
             fn(e3)
